@@ -95,9 +95,11 @@ def run(ctx):
         corpus = os.path.join(ctx.pdir, "corpus.txt")
         if os.path.exists(corpus):
             lines = [l.split("#")[0].strip() for l in open(corpus) if l.split("#")[0].strip()] + lines
-    # one harness process per history (each stays well below ten minutes)
-    out = ""
-    for i, ln in enumerate(lines):
+    # one harness process per history (each stays well below ten minutes); histories are independent
+    # and run in parallel, the outputs are concatenated in plan order
+    import concurrent.futures
+    def one_history(arg):
+        i, ln = arg
         inp = os.path.join(ctx.bdir, "hist_%d_%d.txt" % (os.getpid(), i))
         open(inp, "w").write(ln + "\n")
         rc, o1, err = vlib.sh2([impl, inp], timeout=900)
@@ -105,7 +107,9 @@ def run(ctx):
         if rc != 0 and "\nE" not in "\n" + o1:
             # killed or crashed half way: keep what was observed, close the history
             o1 += ("" if o1.startswith("H ") else "H seed=? base=ok scenario=?\n") + "X harness process ended with rc=%s: %s\nE\n" % (rc, err[-300:].replace("\n", " "))
-        out += o1
+        return o1
+    with concurrent.futures.ThreadPoolExecutor(max_workers=max(2, min(6, vlib.NCPU // 2))) as ex:
+        out = "".join(ex.map(one_history, list(enumerate(lines))))
     # ---- parse
     hists = []  # dicts: line, H, faults [(F dict, D or None)], base dump
     cur = None
